@@ -248,7 +248,7 @@ func (u *Unit) subObject(t types.Type, idx int, ref Term) Term {
 	// entry watermark for objects that existed at entry (no quantified axioms:
 	// they make satisfiability checks diverge)
 	if !strings.Contains(ref.S, "q!") && !strings.Contains(ref.S, "!f ") && !isFormal(ref.S) {
-		u.axiomOnce(r.S, fmt.Sprintf("(and (= (%s %s) %s) (=> (> %s 0) (> %s 0)) (=> (< %s wm@0) (< %s wm@0)))", inv, r.S, ref.S, ref.S, r.S, ref.S, r.S))
+		u.axiomOnce(r.S, fmt.Sprintf("(and (= (%s %s) %s) (=> (> %s 0) (> %s 0)) (=> (< %s wm@0) (< %s wm@0)) (=> (>= %s wm@0) (>= %s wm@0)))", inv, r.S, ref.S, ref.S, r.S, ref.S, r.S, ref.S, r.S))
 	}
 	return r
 }
